@@ -150,6 +150,10 @@ def generate(rng, prop, tier):
     keys, risky_tags = _pick_keys(rng, label, risky)
     values = value_domain(label)
     bigvals = label not in ('file-src', 'dir-src', 'null') and rng.chance(0.035)
+    mainvals = prop == 'C04' and label in ('file-pkl', 'dir-pkl') and rng.chance(0.12)
+    if mainvals:
+        # instances of a class defined in the writing script's __main__; the last reader is another interpreter
+        values = list(values) + [{'$o': 'mainthing'}] * 4
     if bigvals:
         # values larger than one MiB (also after compression): block-wise readers/writers, several write buffers
         values = list(values) + [{'$big': 'rep'}, {'$big': 'hex'}, {'$big': 'hex'}]
@@ -257,7 +261,7 @@ def generate(rng, prop, tier):
             op['away'] = True
         ops.append(op)
     if prop == 'C04':
-        ops.append({'op': 'reader', 't': 0, 'how': rng.weighted(READERS)})
+        ops.append({'op': 'reader', 't': 0, 'how': rng.weighted(READERS) if not mainvals else 'exec'})
     case['ops'] = ops
     return case
 
@@ -272,8 +276,21 @@ class Mismatch(Exception):
         self.detail = detail
 
 
+class _Repr(object):
+    """what a reader in another interpreter reports for an object it cannot send back: its repr"""
+    def __init__(self, text):
+        self.text = text
+
+    def __repr__(self):
+        return self.text
+
+
 def same(a, b):
     """value equality that also distinguishes 1 / 1.0 / True and tuple / list"""
+    if isinstance(a, _Repr) or isinstance(b, _Repr):
+        return repr(a) == repr(b)
+    if type(a).__name__ == 'MainThing' and type(b).__name__ == 'MainThing':
+        return a.n == b.n        # dill rebuilds a __main__ class by value: an equal but distinct class object
     if callable(a) and callable(b):
         try:
             return a(3) == b(3)
@@ -645,7 +662,7 @@ def read_via(w, i, how, ctx):
             raise Mismatch('read-raises', "reader in exec'd interpreter failed: "
                            + p.stderr.decode()[-400:])
         items = json.loads(p.stdout.decode().strip().splitlines()[-1])
-        return dict((dec(k), dec(v)) for k, v in items), None
+        return dict((dec(k), _Repr(v['$r']) if isinstance(v, dict) and '$r' in v else dec(v)) for k, v in items), None
     raise ValueError(how)
 
 
